@@ -28,7 +28,6 @@ EXTENDS Deps
 
 NumToks == {"n:0", "n:1", "n:2", "n:3"}
 NumOf(t) == CASE t = "n:0" -> 0 [] t = "n:1" -> 1 [] t = "n:2" -> 2 [] t = "n:3" -> 3 [] OTHER -> 0
-KnownToks == NumToks \cup {"true", "false", "{}", "s:x", "s:y", "s:z", "s:root", "s:mid", "s:leaf", "s:oth", "s:m", "s:u"}
 
 \* JSON type of ValAt's result
 KindOf(x) == IF x \in {"true", "false"} THEN "boolean"
